@@ -69,13 +69,29 @@ def _run_one(args: Tuple[str, str, int, Dict[str, Any]]) -> Dict[str, Any]:
             ok = not viol and not und and not rep.errors
         else:
             ok = any(o.rule == exp or o.rule.startswith(exp) for o in viol)
+        status = "ok" if ok else "FAILED"
+        if exp is None and not ok and not viol:
+            # a twin on which the analysis says "I do not recognise this code" (undecided obligations / floors, never a violation): expected when the twin is listed, with
+            # the reason, in refactorings/UNDECIDED.json (DESIGN.md 9.16, 9.17) - recorded as such, not as a regression of the checker
+            if prop in documented_undecided().get(v["name"].split("/")[-1], {}).get("properties", []):
+                status = "undecided-documented"
         return {
-            "name": v["name"], "status": "ok" if ok else "FAILED", "expect": exp, "violated_rules": got_rules,
+            "name": v["name"], "status": status, "expect": exp, "violated_rules": got_rules,
             "undecided": [o.rule for o in und], "errors": rep.errors[:3],
             "first": (viol[0].desc + " @ " + viol[0].where) if viol else "",
         }
     except BaseException as e:  # noqa
         return {"name": v.get("name", "?"), "status": "FAILED", "detail": f"{type(e).__name__}: {e}"}
+
+
+def documented_undecided() -> Dict[str, Any]:
+    import json
+    p = os.path.join(os.path.dirname(os.path.dirname(os.path.abspath(__file__))), "refactorings", "UNDECIDED.json")
+    try:
+        with open(p) as f:
+            return json.load(f)
+    except (OSError, ValueError):
+        return {}
 
 
 def seeded_for(prop: str) -> List[Dict[str, Any]]:
@@ -144,6 +160,7 @@ def selftest(prop: str, repo: str, seed: int, rep: Report) -> None:
         "variants": len(results),
         "breaking_flagged": sum(1 for r in results if r["status"] == "ok" and r.get("expect")),
         "twins_silent": sum(1 for r in results if r["status"] == "ok" and not r.get("expect")),
+        "twins_undecided_documented": [r["name"] for r in results if r["status"] == "undecided-documented"],
         "inapplicable": [r["name"] for r in results if r["status"] == "inapplicable"],
         "failed": failed,
         "results": [{k: r.get(k) for k in ("name", "status", "expect", "violated_rules")} for r in results],
@@ -158,7 +175,8 @@ def main() -> int:
     prop = sys.argv[1].upper()
     pat = sys.argv[2] if len(sys.argv) > 2 else ""
     repo = os.environ.get("VERIF_REPO", "/repo")
-    vs = [v for v in load_variants(prop) + seeded_for(prop) + refactorings() if pat in v["name"]]
+    own_only = bool(os.environ.get("VARIANTS_OWN"))  # the hand-written variants only (the kept patches are run by tools/matrix_par.sh)
+    vs = [v for v in load_variants(prop) + ([] if own_only else seeded_for(prop) + refactorings()) if pat in v["name"]]
     with ProcessPoolExecutor(max_workers=min(16, max(1, len(vs)))) as ex:
         res = list(ex.map(_run_one, [(prop, repo, 0, v) for v in vs]))
     bad = 0
